@@ -238,7 +238,7 @@ def scratch_facts():
 def generate():
     L = []
     A = L.append
-    A("(* GENERATED by translator/gen_scratch.py from %s — do not edit. *)" % REPO)
+    A("(* GENERATED by translator/gen_scratch.py from the repository under test — do not edit. *)")
     A("From Coq Require Import ZArith List Bool.")
     A("Import ListNotations.")
     A("Open Scope Z_scope.")
@@ -268,7 +268,6 @@ def generate():
     if not m:
         raise TranslatorError("main.rs: arena::init(CONST) not found")
     cname = m.group(1)
-    caps = re.findall(r'#\[cfg\(target_pointer_width\s*=\s*""\)\]\s*const\s+%s\s*:\s*usize\s*=\s*([^;]+);' % cname, main_rs)
     # string contents are blanked by strip(); read the 64-bit one from the raw text instead
     raw = read("src/bin/naija/main.rs")
     m64 = re.search(r'#\[cfg\(target_pointer_width\s*=\s*"64"\)\]\s*const\s+%s\s*:\s*usize\s*=\s*([^;]+);' % cname, raw)
